@@ -2,6 +2,7 @@
 #ifndef VERIF_DBTRAITS_H
 #define VERIF_DBTRAITS_H
 #include "acetime_all.h"
+#include "friends.h"
 struct ExtDb {
   typedef ace_time::extended::ZoneInfo Info;
   typedef ace_time::ExtendedZoneProcessor Processor;
@@ -53,6 +54,19 @@ struct GenDb {
   static int untilYear() { return ace_time::VERIF_GEN_NS::kZoneContext.untilYear; }
 };
 #endif
+// Does the zone need more than the processor holds (extended: transition pool high-water reaches kMaxTransitions; basic: a
+// transition was dropped from the 5-slot cache)? Such zones are D21 material (the compiler has no capacity filter): they are
+// judged in C03/S7 and skipped, with a count, by the checks that compare behaviours on generated tables.
+inline bool verif_over_capacity(ace_time::ExtendedZoneProcessor& p, const ace_time::TimeZone& tz) {
+  p.resetTransitionHighWater();
+  for (int y = 2000; y < 2050; y++) { (void)tz.getUtcOffset((ace_time::acetime_t)((int64_t)(y - 2000) * 31557600LL + 15000000LL)); }
+  return p.getTransitionHighWater() >= TransitionStorageTest_findTransitionForDateTime::capacity();
+}
+inline bool verif_over_capacity(ace_time::BasicZoneProcessor& p, const ace_time::TimeZone& tz) {
+  uint32_t before = verif_dropped(p);
+  for (int y = 2000; y < 2050; y++) { (void)tz.getUtcOffset((ace_time::acetime_t)((int64_t)(y - 2000) * 31557600LL + 15000000LL)); }
+  return verif_dropped(p) != before;
+}
 template <class Db> const typename Db::Info* find_zone(const char* nm) {
   for (uint16_t i = 0; i < Db::size(); i++) if (strcmp(Db::name(Db::info(i)), nm) == 0) return Db::info(i);
   return nullptr;
